@@ -193,11 +193,16 @@ func seedTable(i int) []byte {
 		t.RowsCount = 511
 		t.PK = []uint32{1, 0}
 		t.Columns = []string{"a", "b"}
+	case 4: // a long block list (40 blocks)
+		t.RowsCount = 40*255 - 10
 	}
 	nb := int(objects.BlocksCount(t.RowsCount))
 	for j := 0; j < nb; j++ {
-		t.Blocks = append(t.Blocks, bytes.Repeat([]byte{byte(0x61 + j)}, 16))
-		t.BlockIndices = append(t.BlockIndices, bytes.Repeat([]byte{byte(0x71 + j)}, 16))
+		bs := bytes.Repeat([]byte{byte(0x61 + j)}, 16)
+		is := bytes.Repeat([]byte{byte(0x71 + j)}, 16)
+		bs[15], is[15] = byte(j), byte(j)
+		t.Blocks = append(t.Blocks, bs)
+		t.BlockIndices = append(t.BlockIndices, is)
 	}
 	return mustBytes(func(w io.Writer) error { _, err := t.WriteTo(w); return err })
 }
@@ -303,7 +308,7 @@ func seedStreams() []*seedStream {
 	for i := 0; i < 3; i++ {
 		add(fmt.Sprintf("commit%d", i), decCommit, seedCommit(i))
 	}
-	for i := 0; i < 4; i++ {
+	for i := 0; i < 5; i++ {
 		add(fmt.Sprintf("table%d", i), decTable, seedTable(i))
 	}
 	for i := 0; i < 6; i++ {
